@@ -21,7 +21,7 @@ from props.c11 import other_ranges
 
 NAT = None
 SUFFIXES = ["", " (gl)", " (?)", " (*)", " ()", " (equal)", " (no-eol)", " (escaped)", " (re+)", "[1]", "[12]", "1]"]
-ALPHA = "a $>[]1`\\"
+ALPHA = "a $>[]1`\\\t"
 
 
 class GenModels(GrammarModels):
@@ -170,6 +170,8 @@ def h_generated(max_u, mode, cram):
             core = t
             if not line.endswith(b"\n") and core.endswith(" (no-eol)"):
                 core = core[:-len(" (no-eol)")]          # written by the generator, not part of the line
+            if core.endswith(" (escaped)") and not line.rstrip(b"\n").endswith(b" (escaped)"):
+                core = core[:-len(" (escaped)")]         # likewise: the escaper's own marker
             if fmt == "cram" and (doc.count("\n") < 2 or t != t.rstrip() or core.strip() == ""):
                 cls = "cram-whitespace-or-empty-line"
             elif re.fullmatch(r"\[[0-9]+\]", t):
